@@ -22,6 +22,7 @@ EXPLANATION = (
     "exactly under its flag, the same scale passed to finalize and reported; dynamic: ones to finalize, per-step scales with the initial one prepended; "
     "uncalibrated: ones).  (4) Per-factorisation RMS normalisation and rescale_cholesky are typed in C08 (R-C08-3)."
 )
+TRUSTED_VALUE_PRIMITIVES = ("lstsq_svd",)  # the initial-constraint update (whose whitened residual enters the MLE scale) solves with linalg.lstsq_svd
 LEVEL = "other"
 TECHNIQUE = "abstract interpretation over the AST: scale-degree (units) typing of the solver level, value-numbering normal form for the running RMS, provenance of the reported scale"
 LEVEL_TEXT = (
